@@ -367,4 +367,33 @@ def scriptOfFormula (logic : String) (daggify : Bool) (t : Term) : List Sexp :=
     ++ t.fv.eraseDups.map declareFun
     ++ [.list [.atom "assert", if daggify then toSexpDag t else toSexp t], .list [.atom "check-sat"]]
 
+/-! ## general scripts: `SmtLibScript.serialize` over a command list
+
+One printer object serves all commands of a script, but `printer(f)` starts every formula with a fresh let counter and the
+reserved names of *that* formula: each assertion is printed exactly like a formula on its own. -/
+
+/-- the commands the model covers (`SmtLibCommand.serialize`, script.py:57-200) -/
+inductive Cmd
+  | setLogic (logic : String)
+  | declareSort (name : String) (arity : Nat)
+  | declareFun (s : Sym)
+  | declareConst (s : Sym)
+  | assert (t : Term)
+  | push (n : Nat)
+  | pop (n : Nat)
+  | checkSat
+
+def cmdSexp (daggify : Bool) : Cmd → Sexp
+  | .setLogic l => .list [.atom "set-logic", atomOfText l]
+  | .declareSort n k => declareSort (n, k)
+  | .declareFun s => declareFun s
+  | .declareConst s => .list [.atom "declare-const", quoteAtom s.name, tySexp s.ret]
+  | .assert t => .list [.atom "assert", if daggify then toSexpDag t else toSexp t]
+  | .push n => .list [.atom "push", natAtom n]
+  | .pop n => .list [.atom "pop", natAtom n]
+  | .checkSat => .list [.atom "check-sat"]
+
+/-- `SmtLibScript.serialize(daggify)` for a script made of these commands -/
+def scriptOfCmds (daggify : Bool) (cmds : List Cmd) : List Sexp := cmds.map (cmdSexp daggify)
+
 end PySMT.Printer
